@@ -124,9 +124,18 @@ ARG_ATOMS = [('plain'    , 'a'),
              ('hash'     , '#x'),
              ('var'      , '$RP_TASK_ID')]
 
-ARG_EXTRA = [('newline'  , 'a\nb'),
+# white space inside one argument: it has to arrive as written (runs of
+# blanks, tab, newline, leading / trailing blank).  Varied alone for every
+# launcher in both tiers.
+ARG_BLANK = [('2blanks'  , 'two  blanks'),
+             ('3blanks'  , 'a   b    c'),
              ('tab'      , 'a\tb'),
-             ('tilde'    , '~'),
+             ('newline'  , 'a\nb'),
+             ('lead-sp'  , ' lead'),
+             ('trail-sp' , 'trail '),
+             ('only-sp'  , '  ')]
+
+ARG_EXTRA = [('tilde'    , '~'),
              ('amp'      , 'a&b'),
              ('brace'    , '{a,b}'),
              ('bang'     , '!x'),
@@ -135,11 +144,9 @@ ARG_EXTRA = [('newline'  , 'a\nb'),
              ('redirect' , '>x'),
              ('paren'    , '(x)'),
              ('question' , '?'),
-             ('pipe'     , 'a|b'),
-             ('2spaces'  , 'a  b'),
-             ('lead-sp'  , ' a')]
+             ('pipe'     , 'a|b')]
 
-ARG_CLASS = {v: k for k, v in ARG_ATOMS + ARG_EXTRA}
+ARG_CLASS = {v: k for k, v in ARG_ATOMS + ARG_BLANK + ARG_EXTRA}
 
 ENV_ATOMS = [('plain'    , 'v'),
              ('space'    , 'a b'),
@@ -148,13 +155,16 @@ ENV_ATOMS = [('plain'    , 'v'),
              ('unicode'  , '\u00fc'),
              ('empty'    , '')]
 
+ENV_BLANK = [('2blanks'  , 'two  blanks'),
+             ('tab'      , 'a\tb')]
+
 ENV_EXTRA = [('squote'   , "it's"),
              ('semicolon', 'a;b'),
              ('hash'     , '#x'),
              ('backslash', 'back\\slash'),
              ('equals'   , 'a=b')]
 
-ENV_CLASS = {v: k for k, v in ENV_ATOMS + ENV_EXTRA}
+ENV_CLASS = {v: k for k, v in ENV_ATOMS + ENV_BLANK + ENV_EXTRA}
 ENV_NAMES = ['C10_A', 'c10_b']
 
 PER_RANK  = {'0': 'mark:R0', '1': 'mark:R1'}
@@ -186,7 +196,8 @@ PRE_FULL  = PRE_CORE + [
              [{'1': 'mark:R1'}],
              [{'0': 'mark:R0', '1': 'false'}],
              [{'0': 'export:C10_X=r0', '1': 'export:C10_X=r1'}],
-             [{'int_keys': dict(PER_RANK)}]]
+             [{'int_keys': dict(PER_RANK)}],
+             ['exportq:C10_X=two  blanks', 'mark:A']]
 
 POST_RANK = {'0': 'mark:S0', '1': 'mark:S1'}
 POST_RANK3 = {'0': 'mark:SA', '1': 'mark:SB', '2': 'mark:SA'}
@@ -224,6 +235,11 @@ def _env_lists(atoms, pairs):
     return out
 
 
+# every white-space atom alone, and several in one list
+ARG_BLANK_LISTS = _arg_lists(ARG_BLANK, False)[1:] + \
+                  [['two  blanks', ' lead', 'trail ', 'a   b    c'],
+                   ['a\tb', 'a\nb', '  ', 'a']]
+
 # field -> (core, full, deep): `core` values enter the products of field
 # pairs, `full` the one-at-a-time variation (and, thorough, the products),
 # `deep` the one-at-a-time variation of the thorough tier
@@ -231,12 +247,15 @@ FIELDS = {
     'exe'   : (['abs', 'path', 'rel'],
                ['abs', 'path', 'rel', 'uni', 'var'], None),
     'args'  : (_arg_lists(ARG_ATOMS, False),
-               _arg_lists(ARG_ATOMS, True),
-               _arg_lists(ARG_ATOMS, True) +
+               _arg_lists(ARG_ATOMS, True) + ARG_BLANK_LISTS,
+               _arg_lists(ARG_ATOMS, True) + ARG_BLANK_LISTS +
+               _arg_lists(ARG_BLANK, True)[1 + len(ARG_BLANK):] +
                _arg_lists(ARG_EXTRA, True)[1:]),
     'env'   : (_env_lists(ENV_ATOMS, False),
-               _env_lists(ENV_ATOMS, True),
                _env_lists(ENV_ATOMS, True) +
+               _env_lists(ENV_BLANK, False)[1:],
+               _env_lists(ENV_ATOMS, True) +
+               _env_lists(ENV_BLANK, False)[1:] +
                _env_lists(ENV_EXTRA, False)[1:]),
     # `both.log` in both: stdout and stderr described as the same file
     'stdout': (['', 'my.out', 'ABS', 'both.log'],
@@ -331,7 +350,8 @@ def simulate(spec, rank):
     for cmd in rank_cmds(spec, rank):
         kind, _, arg = cmd.partition(':')
         if   kind == 'mark'  : marks.append(arg)
-        elif kind == 'export': exports.update([arg.split('=', 1)])
+        elif kind in ('export', 'exportq'):
+            exports.update([arg.split('=', 1)])
         elif kind == 'false' : return marks, exports, True
         elif kind != 'true'  : raise ValueError(cmd)
     return marks, exports, False
@@ -634,6 +654,8 @@ class World(object):
             if kind == 'mark':
                 return 'echo "${PMIX_RANK:-0}:%s:%s" >> %s/marks' \
                        % (sig, arg, self.obs)
+            if kind == 'exportq':
+                return 'export %s="%s"' % tuple(arg.split('=', 1))
             if kind == 'export':
                 return 'export %s' % arg
             return kind
@@ -1511,8 +1533,12 @@ def run(ctx):
                  '(absolute, $PATH, ./relative, unicode directory, '
                  '$RP_PILOT_SANDBOX), arguments (none, all single atoms and '
                  'all ordered pairs of %d atoms: space, quotes, glob, empty, '
-                 'unicode, dash, semicolon, backslash, hash, $RP_TASK_ID%s), '
-                 'environment (none, singles and pairs of %d values%s), '
+                 'unicode, dash, semicolon, backslash, hash, $RP_TASK_ID; '
+                 'white space inside one argument alone and in two mixed '
+                 'lists: two / several blanks, tab, newline, leading / '
+                 'trailing / only blanks%s), '
+                 'environment (none, singles and pairs of %d values, a value '
+                 'with two blanks, one with a tab%s), '
                  'stdout / stderr (default, relative, absolute, one file '
                  'for both), pre_exec '
                  '(%d lists: none, true, export, false, marks, per-rank '
